@@ -1,11 +1,13 @@
 """C08  Cancel stops the named tasks and nothing else  (DESIGN 5 / C08)"""
 
 import ast
+import copy
 
 from ..model import (walk, dotted, call_name, kwarg, unparse, short, UNKNOWN,
-                     root_name, AnalysisError, calls_in, stores_in_target)
+                     root_name, AnalysisError, calls_in, stores_in_target,
+                     names_in)
 from ..cfg import cfg_of
-from ..flow import Deps, guards, must_pass, loop_slice
+from ..flow import Deps, guards, must_pass, loop_slice, reaching_defs
 from .. import idioms as I
 
 COMP  = ('utils/component.py', 'BaseComponent')
@@ -16,18 +18,32 @@ LM    = ('agent/launch_method/base.py', 'LaunchMethod')
 TMGR  = ('task_manager.py', 'TaskManager')
 
 
+def _cmd_test(n, cmd=None):
+    """(command, edge label taken when the command matches) of a cfg test node
+    `x == '<cmd>'` / `x != '<cmd>'`; None for other nodes"""
+    if n.kind == 'test' and isinstance(n.ast, ast.Compare) and \
+            len(n.ast.ops) == 1 and \
+            isinstance(n.ast.ops[0], (ast.Eq, ast.NotEq)) and \
+            isinstance(n.ast.comparators[0], ast.Constant) and \
+            isinstance(n.ast.comparators[0].value, str) and \
+            (cmd is None or n.ast.comparators[0].value == cmd):
+        return (n.ast.comparators[0].value,
+                'T' if isinstance(n.ast.ops[0], ast.Eq) else 'F')
+    return None
+
+
 def cmd_branches(prog, f, cmd):
-    """cfg test nodes `cmd == '<cmd>'` of a control handler and the node ids
-    reachable only through their true edge"""
+    """cfg test nodes `cmd == '<cmd>'` (or `cmd != '<cmd>'`: the handler is
+    then the false arm) of a control handler and the node ids reachable only
+    through the edge taken when the command matches"""
     g = cfg_of(f)
     out = []
     for n in g.nodes:
-        if n.kind == 'test' and isinstance(n.ast, ast.Compare) and \
-                len(n.ast.ops) == 1 and isinstance(n.ast.ops[0], ast.Eq) and \
-                isinstance(n.ast.comparators[0], ast.Constant) and \
-                n.ast.comparators[0].value == cmd:
-            t = [e.dst for e in g.succ[n.id] if e.label == 'T']
-            ff = [e.dst for e in g.succ[n.id] if e.label == 'F']
+        ct = _cmd_test(n, cmd)
+        if ct:
+            t = [e.dst for e in g.succ[n.id] if e.label == ct[1]]
+            ff = [e.dst for e in g.succ[n.id] if e.label in ('T', 'F') and
+                  e.label != ct[1]]
             rt = set()
             for s in t:
                 rt |= g.reachable(s, no_back=False)
@@ -65,18 +81,184 @@ def arg_var(f):
     return None
 
 
+NORMAL = {'next', 'T', 'F', 'iter', 'done'}
+
+
+def strip_truth(e):
+    """(inner expression, polarity) of an expression used for its truth:
+    `not X`, `X is True`, `X == True`, `X is not False`, `X is False`, ..,
+    `bool(X)` are reduced to X with the polarity under which X is true"""
+    pol = True
+    while True:
+        if isinstance(e, ast.UnaryOp) and isinstance(e.op, ast.Not):
+            e, pol = e.operand, not pol
+        elif isinstance(e, ast.Compare) and len(e.ops) == 1 and \
+                isinstance(e.ops[0], (ast.Is, ast.IsNot, ast.Eq, ast.NotEq)) \
+                and isinstance(e.comparators[0], ast.Constant) and \
+                isinstance(e.comparators[0].value, bool):
+            same = isinstance(e.ops[0], (ast.Is, ast.Eq))
+            if e.comparators[0].value != same:
+                pol = not pol
+            e = e.left
+        elif isinstance(e, ast.Call) and isinstance(e.func, ast.Name) and \
+                e.func.id == 'bool' and len(e.args) == 1 and not e.keywords:
+            e = e.args[0]
+        else:
+            return e, pol
+
+
+class TruthUses:
+    """Where the truth of a value is decided, by definition and use.
+
+    `match(expr)` says whether an expression is the value looked for: it
+    returns True / False (the expression is the value / its negation) or None.
+    Recorded are
+      evals  cfg nodes that evaluate the value (test nodes, or assignments
+             `t = <value>` to a local name)
+      sites  [(test node, edge label taken when the value is true)]: tests of
+             the value itself and of local names whose only definition
+             reaching the test is such an assignment
+      rets   [(return node, polarity)]: returns of the value / of such a name
+    A name that reaches a test together with another definition raises
+    AnalysisError (the analysis cannot say what is tested)."""
+
+    def __init__(self, f, g, match):
+        self.g = g
+        self.evals, self.sites, self.rets = [], [], []
+        self.bound = []                      # (assign node, name, polarity)
+
+        def m(e):
+            e, pol = strip_truth(e)
+            r = match(e)
+            return None if r is None else (pol == bool(r))
+        for n in g.nodes:
+            if n.ast is None:
+                continue
+            if n.kind == 'test':
+                r = m(n.ast)
+                if r is not None:
+                    self.evals.append(n)
+                    self.sites.append((n, 'T' if r else 'F'))
+            elif n.kind == 'stmt' and isinstance(n.ast, ast.Assign) and \
+                    len(n.ast.targets) == 1 and \
+                    isinstance(n.ast.targets[0], ast.Name):
+                r = m(n.ast.value)
+                if r is not None:
+                    self.evals.append(n)
+                    self.bound.append((n, n.ast.targets[0].id, r))
+            elif n.kind == 'stmt' and isinstance(n.ast, ast.Return) and \
+                    n.ast.value is not None:
+                r = m(n.ast.value)
+                if r is not None:
+                    self.evals.append(n)
+                    self.rets.append((n, r))
+        # plain copies of a bound name (`hit = listed`)
+        for _ in range(3):
+            for n in g.nodes:
+                if n.kind == 'stmt' and isinstance(n.ast, ast.Assign) and \
+                        len(n.ast.targets) == 1 and \
+                        isinstance(n.ast.targets[0], ast.Name) and \
+                        not any(n is b[0] for b in self.bound):
+                    e, pol = strip_truth(n.ast.value)
+                    if isinstance(e, ast.Name):
+                        src = self._def_of(e.id, n)
+                        if src is not None:
+                            self.bound.append((n, n.ast.targets[0].id,
+                                               pol == src[2]))
+        for n in g.nodes:
+            if n.ast is None:
+                continue
+            if n.kind == 'test':
+                e, pol = strip_truth(n.ast)
+                if isinstance(e, ast.Name):
+                    src = self._def_of(e.id, n)
+                    if src is not None:
+                        self.sites.append((n, 'T' if pol == src[2] else 'F'))
+            elif n.kind == 'stmt' and isinstance(n.ast, ast.Return) and \
+                    n.ast.value is not None:
+                e, pol = strip_truth(n.ast.value)
+                if isinstance(e, ast.Name):
+                    src = self._def_of(e.id, n)
+                    if src is not None:
+                        self.rets.append((n, pol == src[2]))
+
+    def _def_of(self, name, at):
+        cands = [b for b in self.bound if b[1] == name]
+        if not cands:
+            return None
+        rd = reaching_defs(self.g, name, at.id)
+        mine = [b for b in cands if any(x[0] is b[0] for x in rd)]
+        if not mine:
+            return None
+        if len(rd) != 1 or len(mine) != 1:
+            raise AnalysisError('UNRECOGNISED-IDIOM %s: `%s` tested at line '
+                                '%s has several definitions' % (
+                                    self.g.func.name, name,
+                                    getattr(at.ast, 'lineno', '?')))
+        return mine[0]
+
+    def hit_edges(self):
+        return {(n.id, lab) for n, lab in self.sites}
+
+    def miss_edges(self):
+        return {(n.id, 'F' if lab == 'T' else 'T') for n, lab in self.sites}
+
+
+def _names_bound_to(f, text):
+    """local names all of whose definitions in f are `name = <text>`"""
+    vals = {}
+    for n in walk(f.node):
+        if isinstance(n, ast.Assign):
+            for t in n.targets:
+                for nm in stores_in_target(t):
+                    vals.setdefault(nm, []).append(
+                        unparse(n.value) if isinstance(t, ast.Name) else None)
+        elif isinstance(n, (ast.For, ast.comprehension)):
+            for nm in stores_in_target(n.target):
+                vals.setdefault(nm, []).append(None)
+        elif isinstance(n, (ast.AugAssign, ast.AnnAssign)):
+            for nm in stores_in_target(n.target):
+                vals.setdefault(nm, []).append(None)
+    return {nm for nm, vs in vals.items() if all(v == text for v in vs)}
+
+
+def is_cancel_list(f, e):
+    """expression is self._cancel_list (or a local name bound to nothing
+    else)"""
+    if unparse(e) == 'self._cancel_list':
+        return True
+    return isinstance(e, ast.Name) and e.id in _names_bound_to(
+        f, 'self._cancel_list')
+
+
 def _is_canceled_rule(prog, rep, rid, comp):
     f = prog.find_method(comp, 'is_canceled')
     rep.saw(f)
     g = cfg_of(f)
-    smap = I.stmt_node_map(g)
     d = Deps(f.node)
     param = [p for p in f.params if p != 'self'][0]
-    member = [n for n in g.nodes if n.kind == 'test' and
-              isinstance(n.ast, ast.Compare) and len(n.ast.ops) == 1 and
-              isinstance(n.ast.ops[0], (ast.In, ast.NotIn)) and
-              unparse(n.ast.comparators[0]) == 'self._cancel_list']
+
+    def membership(e):
+        if isinstance(e, ast.Compare) and len(e.ops) == 1 and \
+                isinstance(e.ops[0], (ast.In, ast.NotIn)) and \
+                is_cancel_list(f, e.comparators[0]):
+            return isinstance(e.ops[0], ast.In)
+        return None
+    member = [n for n in walk(f.node) if membership(n) is not None]
     if not member:
+        # is the list consulted in a way this recogniser does not know
+        # (count / index / try: remove)?
+        other = [c for c in calls_in(f.node)
+                 if isinstance(c.func, ast.Attribute) and
+                 is_cancel_list(f, c.func.value) and
+                 c.func.attr in ('count', 'index', '__contains__')]
+        eafp = [t for t in walk(f.node) if isinstance(t, ast.Try) and any(
+            isinstance(c.func, ast.Attribute) and c.func.attr == 'remove' and
+            is_cancel_list(f, c.func.value)
+            for s in t.body for c in calls_in(s))]
+        if other or eafp:
+            raise AnalysisError('UNRECOGNISED-IDIOM %s: the cancel list is '
+                                'consulted without a membership test' % f.where)
         rep.bad(rid, f, 'is_canceled:no-membership-test', 'is_canceled never '
                 'tests the cancel list: it reports things as canceled (or '
                 'not) regardless of the request', f.loc(),
@@ -87,22 +269,47 @@ def _is_canceled_rule(prog, rep, rid, comp):
         raise AnalysisError('UNRECOGNISED-IDIOM %s: membership test on the '
                             'cancel list' % f.where)
     m = member[0]
-    hit = 'T' if isinstance(m.ast.ops[0], ast.In) else 'F'
-    keyed = "%s['uid']" % param in d.expr_depends(m.ast.left)
+    tu = TruthUses(f, g, membership)
+    if not tu.sites and not tu.rets:
+        raise AnalysisError('UNRECOGNISED-IDIOM %s: the result of the '
+                            'membership test on the cancel list is not used '
+                            'in a test or return' % f.where)
+    hit, miss = tu.hit_edges(), tu.miss_edges()
+    keyed = "%s['uid']" % param in d.expr_depends(m.left)
     rep.check(keyed, rid, f, "is_canceled tests the uid of the given task",
-              construct=m.ast, message="is_canceled tests `%s`, which is not "
-              "the uid of the task it was given" % short(m.ast, 50),
-              loc=f.loc(m.ast), history='a bystander task is reported '
+              construct=m, message="is_canceled tests `%s`, which is not "
+              "the uid of the task it was given" % short(m, 50),
+              loc=f.loc(m), history='a bystander task is reported '
               'CANCELED')
+    mret = {n.id: pol for n, pol in tu.rets}
+    falsy = []
     for n in g.stmt_nodes():
         if n.kind != 'stmt':
             continue
-        is_true_ret = isinstance(n.ast, ast.Return) and \
-            isinstance(n.ast.value, ast.Constant) and n.ast.value.value is True
+        is_ret = isinstance(n.ast, ast.Return)
+        val = n.ast.value if is_ret else None
+        is_true_ret = is_ret and isinstance(val, ast.Constant) and \
+            val.value is True
+        if is_ret and (val is None or (isinstance(val, ast.Constant) and
+                                       not val.value)):
+            falsy.append(n)
+        if is_ret and n.id in mret:
+            # the membership itself is what is returned
+            rep.check(mret[n.id], rid, f, '`%s` returns whether the uid was '
+                      'found in the cancel list' % short(n.ast, 40),
+                      construct=n.ast, message='is_canceled returns the '
+                      'negation of the membership test: `%s`'
+                      % short(n.ast, 50), loc=f.loc(n.ast),
+                      history='a cancel request for task A arrives; task B '
+                      'passes a component and is dropped as canceled')
+        elif is_ret and not is_true_ret and n not in falsy:
+            raise AnalysisError('UNRECOGNISED-IDIOM %s: `%s`' % (
+                f.where, short(n.ast, 50)))
         hands = [c for c in calls_in(n.ast) if I.is_handon(c)]
         if not (is_true_ret or hands):
             continue
-        okay = (m.id, hit) in guards(g, n.id)
+        gs = set(guards(g, n.id))
+        okay = bool(gs & hit)
         rep.check(okay, rid, f, '`%s` only for a uid found in the cancel list'
                   % short(n.ast, 40), construct=n.ast,
                   message='is_canceled executes `%s` for a task whose uid is '
@@ -117,16 +324,315 @@ def _is_canceled_rule(prog, rep, rid, comp):
                       f, 'is_canceled hands the given task on as CANCELED',
                       construct=c, message='is_canceled hands on `%s` in '
                       'state %r' % (short(thing, 30), st), loc=f.loc(c))
-    falses = [n for n in g.stmt_nodes() if n.kind == 'stmt' and
-              isinstance(n.ast, ast.Return) and
-              isinstance(n.ast.value, ast.Constant) and
-              n.ast.value.value is False]
-    miss = 'F' if hit == 'T' else 'T'
-    okf = any((m.id, miss) in guards(g, n.id) for n in falses)
+    # a listed thing that has a state is handed on as CANCELED on every path
+    # to the answer: that hand-on is the only final state it will ever get
+    canceled = prog.const('states.py', 'CANCELED')
+    hnodes = set()
+    smap = I.stmt_node_map(g)
+    for c in calls_in(f.node):
+        if I.is_handon(c) and id(c) in smap and \
+                I.handon_state(prog, f, c) == canceled and \
+                isinstance(I.handon_thing(c), ast.Name) and \
+                I.handon_thing(c).id == param:
+            hnodes.add(smap[id(c)].id)
+    def has_state(e):
+        if isinstance(e, ast.Compare) and len(e.ops) == 1 and \
+                isinstance(e.ops[0], (ast.In, ast.NotIn)) and \
+                isinstance(e.left, ast.Constant) and e.left.value == 'state' \
+                and isinstance(e.comparators[0], ast.Name) and \
+                e.comparators[0].id == param:
+            return isinstance(e.ops[0], ast.In)
+        return None
+    ts = TruthUses(f, g, has_state)
+    stateful, stateless = ts.hit_edges(), ts.miss_edges()
+    starts = [e.dst for nid, lab in hit for e in g.succ[nid] if e.label == lab]
+    skipped = _flow_to(g, starts, hnodes, {g.exit.id}, skip_edges=stateless)[0]
+    if skipped and hnodes:
+        # why is it skipped?  decided only for the inverted `'state' in task`
+        inverted = any(set(guards(g, h)) & stateless for h in hnodes)
+        other = [t for h in hnodes for t, lab in set(guards(g, h)) - hit
+                 - stateful - stateless]
+        if not inverted and other:
+            raise AnalysisError('UNRECOGNISED-IDIOM %s: the CANCELED hand-on '
+                                'is guarded by `%s`' % (f.where, short(
+                                    g.nodes[other[0]].ast, 40)))
+    rep.check(not skipped, rid, f, 'a listed thing with a state is handed on '
+              'as CANCELED before is_canceled answers', construct=
+              'is_canceled:hand-on', message='is_canceled can answer for a '
+              'thing that is in the cancel list and has a state without '
+              'handing it on as CANCELED%s: the callers drop the thing on a '
+              'true answer, so it never gets any final state' % (
+                  '' if hnodes else ' (there is no such hand-on)'),
+              loc=f.loc(), history='cancel request for a task that then '
+              'reaches a component intake: the task disappears from the '
+              'pipeline, the application waits for its final state forever')
+    # a task that is not listed gets a false answer: a falsy return on the
+    # miss side, the membership value itself, or the end of the function
+    okf = any(set(guards(g, n.id)) & miss for n in falsy) or \
+        any(pol for pol in mret.values())
+    if not okf:
+        after_miss = set()
+        for nid, lab in miss:
+            for e in g.succ[nid]:
+                if e.label == lab:
+                    after_miss |= g.reachable(e.dst, labels=NORMAL)
+        okf = any((e.src in after_miss or (e.src, e.label) in miss) and
+                  not isinstance(g.nodes[e.src].ast, ast.Return)
+                  for e in g.pred[g.exit.id] if e.label in NORMAL)
     rep.check(okf, rid, f, 'is_canceled returns False for a uid not in the '
               'list', construct='is_canceled:false',
               message='is_canceled has no `return False` for tasks which are '
               'not in the cancel list', loc=f.loc())
+
+
+def _canceled_call(e, names=None):
+    """(variable, polarity) if expression e decides `self.is_canceled(<var>)`
+    (polarity True: e is true when the thing is canceled), else None"""
+    e, pol = strip_truth(e)
+    if isinstance(e, ast.Call) and call_name(e) == 'self.is_canceled' and \
+            len(e.args) == 1 and isinstance(e.args[0], ast.Name) and \
+            (names is None or e.args[0].id in names):
+        return e.args[0].id, pol
+    return None
+
+
+def benign_edges(f, g):
+    """{(test node id, label)}: edges taken when the cancel list is found
+    empty - skipping a cancel check on such an edge changes nothing, the
+    check would have answered False"""
+    out = set()
+    for n in g.nodes:
+        if n.kind != 'test':
+            continue
+        e, pol = strip_truth(n.ast)
+        # len(L) > 0, len(L) != 0, len(L) >= 1, len(L) == 0, len(L) < 1
+        if isinstance(e, ast.Compare) and len(e.ops) == 1 and \
+                isinstance(e.comparators[0], ast.Constant) and \
+                (type(e.ops[0]), e.comparators[0].value) in (
+                    (ast.Gt, 0), (ast.NotEq, 0), (ast.GtE, 1), (ast.Eq, 0),
+                    (ast.Lt, 1), (ast.LtE, 0)):
+            if isinstance(e.ops[0], (ast.Eq, ast.Lt, ast.LtE)):
+                pol = not pol
+            e = e.left
+        if isinstance(e, ast.Call) and isinstance(e.func, ast.Name) and \
+                e.func.id == 'len' and len(e.args) == 1:
+            e = e.args[0]
+        if is_cancel_list(f, e):
+            out.add((n.id, 'F' if pol else 'T'))
+    return out
+
+
+def reads_through_defs(g, expr, node, depth=3):
+    """names and self attributes the value of expr at cfg node `node` is
+    computed from: what expr reads, local names being followed to the
+    definitions that reach the node (flow sensitive, `depth` levels)"""
+    out = set()
+    for x in walk(expr, nested=True):
+        if isinstance(x, ast.Attribute):
+            dn = dotted(x)
+            if dn.startswith('self.'):
+                out.add('.'.join(dn.split('.')[:2]))
+        if not (isinstance(x, ast.Name) and isinstance(x.ctx, ast.Load)) or \
+                x.id == 'self':
+            continue
+        out.add(x.id)
+        if depth <= 0:
+            continue
+        for dn, val in reaching_defs(g, x.id, node.id):
+            if val is not None:
+                out |= reads_through_defs(g, val, dn, depth - 1)
+            elif dn.kind == 'for':
+                out |= reads_through_defs(g, dn.ast.iter, dn, depth - 1)
+            elif dn.kind == 'stmt' and isinstance(dn.ast, ast.AugAssign):
+                out |= reads_through_defs(g, dn.ast.value, dn, depth - 1)
+            elif dn.kind == 'stmt' and isinstance(dn.ast, ast.Assign):
+                out |= reads_through_defs(g, dn.ast.value, dn, depth - 1)
+    return out
+
+
+def _filter_of(f, g):
+    """The filter on is_canceled() inside f, in comprehension or loop form:
+    dict(ok, construct, src (name of the list filtered), out ('assign', name)
+    / ('return', None) / ('other', None), node (cfg node)) or None"""
+    smap = I.stmt_node_map(g)
+    for n in walk(f.node):
+        if not (isinstance(n, ast.ListComp) and any(
+                call_name(c) == 'self.is_canceled' for c in calls_in(n))):
+            continue
+        gen = n.generators[0]
+        tv = gen.target.id if isinstance(gen.target, ast.Name) else None
+        cc = _canceled_call(gen.ifs[0], {tv}) if len(gen.ifs) == 1 else None
+        ok = len(n.generators) == 1 and cc is not None and cc[1] is False \
+            and isinstance(n.elt, ast.Name) and n.elt.id == tv
+        node = smap.get(id(n))
+        out = ('other', None)
+        if node is not None and node.kind == 'stmt':
+            st = node.ast
+            if isinstance(st, ast.Assign) and st.value is n and \
+                    len(st.targets) == 1 and isinstance(st.targets[0], ast.Name):
+                out = ('assign', st.targets[0].id)
+            elif isinstance(st, ast.Return) and st.value is n:
+                out = ('return', None)
+        return dict(ok=ok, construct=n, node=node, out=out,
+                    src=gen.iter.id if isinstance(gen.iter, ast.Name) else None)
+    # loop form: for x in things: if self.is_canceled(x): continue
+    #            kept.append(x)
+    for H in g.nodes:
+        if H.kind != 'for':
+            continue
+        tvs = set(stores_in_target(H.ast.target))
+        tu = TruthUses(f, g, lambda e: True if (
+            isinstance(e, ast.Call) and call_name(e) == 'self.is_canceled' and
+            len(e.args) == 1 and isinstance(e.args[0], ast.Name) and
+            e.args[0].id in tvs) else None)
+        sites = [(n, lab) for n, lab in tu.sites if H.id in n.loops]
+        if not sites:
+            continue
+        apps = [c for c in calls_in(H.ast)
+                if isinstance(c.func, ast.Attribute) and
+                c.func.attr == 'append' and len(c.args) == 1 and
+                isinstance(c.args[0], ast.Name) and c.args[0].id in tvs and
+                isinstance(c.func.value, ast.Name)]
+        start = loop_slice(g, H.id)[0]
+        ok = False
+        kept = None
+        if len(apps) == 1 and len(sites) == 1:
+            kept = apps[0].func.value.id
+            n, lab = sites[0]
+            keep_lab = 'F' if lab == 'T' else 'T'
+            gs = guards(g, smap[id(apps[0])].id, start=start)
+            # the append is controlled by the check alone (and, if the check
+            # is bound to a name first, by nothing else)
+            ok = gs == [(n.id, keep_lab)]
+        return dict(ok=ok, construct='intake-loop', node=H,
+                    out=('assign', kept) if kept else ('other', None),
+                    src=H.ast.iter.id if isinstance(H.ast.iter, ast.Name)
+                    else None)
+    return None
+
+
+def _copies(f, name):
+    """names the value of `name` is copied to by plain assignments"""
+    out = {name}
+    for _ in range(3):
+        for n in walk(f.node):
+            if isinstance(n, ast.Assign) and isinstance(n.value, ast.Name) and \
+                    n.value.id in out:
+                for t in n.targets:
+                    if isinstance(t, ast.Name):
+                        out.add(t.id)
+    return out
+
+
+def _intake_rule(prog, rep, rid, comp):
+    f = prog.find_method(comp, 'work_cb')
+    rep.saw(f)
+    g = cfg_of(f)
+    smap = I.stmt_node_map(g)
+    d = Deps(f.node)
+    hist = ('a cancel request for one task of a bulk: the other tasks of the '
+            'bulk are dropped (or the named one is processed)')
+    workers = [c for c in calls_in(f.node)
+               if 'self._workers' in unparse(c.func) and id(c) in smap]
+    fl = _filter_of(f, g)
+    where = f
+    if fl is not None:
+        ok = fl['ok']
+        src, fnode = fl['src'], fl['node']
+        outname = fl['out'][1] if fl['out'][0] == 'assign' else None
+        if fl['out'][0] == 'other' and fl['ok']:
+            raise AnalysisError('UNRECOGNISED-IDIOM %s: what becomes of the '
+                                'filtered list' % f.where)
+        construct = fl['construct']
+    else:
+        # the filter lives in a helper: things = self._helper(things)
+        cands = []
+        for c in calls_in(f.node):
+            if id(c) not in smap or not call_name(c).startswith('self.'):
+                continue
+            h = prog.resolve_call(f, c, comp)
+            if h is None or h is f or not any(
+                    call_name(x) == 'self.is_canceled'
+                    for x in calls_in(h.node)):
+                continue
+            cands.append((c, h))
+        if len(cands) != 1:
+            raise AnalysisError('UNRECOGNISED-IDIOM %s: intake filter on '
+                                'is_canceled not found' % f.where)
+        c, h = cands[0]
+        rep.saw(h)
+        hg = cfg_of(h)
+        hf = _filter_of(h, hg)
+        params = [p for p in h.params if p != 'self']
+        if hf is None or hf['src'] not in params:
+            raise AnalysisError('UNRECOGNISED-IDIOM %s: filter on is_canceled '
+                                'in the helper' % h.where)
+        ok = hf['ok']
+        where = h
+        # what the helper returns: the filtered list, or the list as it came
+        # when the cancel list is empty
+        ben = benign_edges(h, hg)
+        kept = _copies(h, hf['out'][1]) if hf['out'][0] == 'assign' else set()
+        for n in hg.stmt_nodes():
+            if n.kind != 'stmt' or not isinstance(n.ast, ast.Return):
+                continue
+            v = n.ast.value
+            if v is hf['construct']:
+                continue
+            if isinstance(v, ast.Name) and v.id in kept:
+                rd = reaching_defs(hg, v.id, n.id)
+                if hf['out'][1] != v.id or (len(rd) == 1 and rd[0][1] is
+                                            hf['construct']):
+                    continue
+            if isinstance(v, ast.Name) and v.id == hf['src'] and \
+                    set(guards(hg, n.id)) & ben:
+                continue
+            raise AnalysisError('UNRECOGNISED-IDIOM %s: `%s`' % (
+                h.where, short(n.ast, 50)))
+        if hf['out'][0] == 'other':
+            raise AnalysisError('UNRECOGNISED-IDIOM %s: what becomes of the '
+                                'filtered list' % h.where)
+        i = params.index(hf['src'])
+        a = c.args[i] if i < len(c.args) else kwarg(c, hf['src'])
+        src = a.id if isinstance(a, ast.Name) else None
+        fnode = smap[id(c)]
+        st = fnode.ast
+        outname = st.targets[0].id if fnode.kind == 'stmt' and isinstance(
+            st, ast.Assign) and st.value is c and len(st.targets) == 1 and \
+            isinstance(st.targets[0], ast.Name) else None
+        construct = 'intake-helper'
+    # the filtered list is the list that is worked on: it replaces the list
+    # that was filtered, or it is what the worker is called with
+    worked = False
+    if src is not None and outname is not None:
+        outs = _copies(f, outname)
+        worked = src in outs or any(
+            isinstance(z, ast.Name) and z.id in outs
+            for w in workers for z in w.args)
+    # the filter runs whenever the worker runs, unless the cancel list is empty
+    strong = True
+    if workers and fnode is not None:
+        # guards met on the way to the filter: the complement edges
+        ben = {(t, 'T' if lab == 'F' else 'F') for t, lab in benign_edges(f, g)}
+        gw = set()
+        for w in workers:
+            gw |= set(guards(g, smap[id(w)].id))
+        for t, lab in set(guards(g, fnode.id)) - gw - ben:
+            dep = d.expr_depends(g.nodes[t].ast)
+            if src in dep or 'self._cancel_list' in dep:
+                raise AnalysisError('UNRECOGNISED-IDIOM %s: the intake filter '
+                                    'is guarded by `%s`' % (
+                                        f.where, short(g.nodes[t].ast, 40)))
+            strong = False
+    rep.check(ok and worked and strong, rid, where, 'work_cb keeps exactly '
+              'the things for which is_canceled() is false', construct=construct,
+              message='the intake filter %sdoes not keep exactly the '
+              'not-canceled things of the bulk%s' % (
+                  '`%s` ' % short(construct, 70)
+                  if not isinstance(construct, str) else '',
+                  '' if ok else ' (polarity / element)' if ok is False else ''),
+              loc=where.loc(construct) if not isinstance(construct, str)
+              else where.loc(), history=hist)
 
 
 # ------------------------------------------------------------------------------
@@ -156,7 +662,31 @@ def r08_1(prog, rep, rid='R08.1'):
                 n.func.attr in ('extend', 'append') and \
                 unparse(n.func.value) == 'self._cancel_list':
             grows.append(n)
-    if not grows:
+    # who may write: apart from its initialisation the list is only ever
+    # extended - a plain re-binding forgets the requests registered before
+    replaced = []
+    for m in comp.methods.values():
+        for n in walk(m.node):
+            if isinstance(n, ast.Assign) and any(
+                    unparse(t) == 'self._cancel_list' for t in n.targets):
+                if _empty_container(n.value):
+                    continue
+                if 'self._cancel_list' in unparse(n.value):
+                    raise AnalysisError('UNRECOGNISED-IDIOM %s: `%s` rebuilds '
+                                        'the cancel list' % (m.where,
+                                                             short(n, 50)))
+                replaced.append((m, n))
+    for m, n in replaced:
+        rep.bad(rid, m, n, '%s replaces the cancel list (`%s`) instead of '
+                'extending it: the uids of earlier requests which no task has '
+                'consumed yet are forgotten%s' % (
+                    m.qual, short(n, 50), ' (and the list is now the very '
+                    'object of the message payload)' if isinstance(
+                        n.value, ast.Name) else ''), m.loc(n),
+                history='cancel request for task A, then a cancel request for '
+                'task B, both before A reaches the component: A is not in the '
+                'list any more and is processed instead of being canceled')
+    if not grows and not replaced:
         raise AnalysisError('UNRECOGNISED-IDIOM %s: self._cancel_list never '
                             'grows' % f.where)
     for n in grows:
@@ -179,95 +709,7 @@ def r08_1(prog, rep, rid='R08.1'):
     _is_canceled_rule(prog, rep, rid, comp)
 
     # (c) the intake filter keeps exactly the things that are not canceled
-    f = prog.find_method(comp, 'work_cb')
-    rep.saw(f)
-    filt = None
-    for n in walk(f.node):
-        if isinstance(n, ast.ListComp) and any(
-                call_name(c) == 'self.is_canceled' for c in calls_in(n)):
-            filt = n
-    if filt is None:
-        # loop form: for x in things: if self.is_canceled(x): continue;
-        #            kept.append(x)   ...   things = kept
-        g = cfg_of(f)
-        smap = I.stmt_node_map(g)
-        okl = None
-        for n in g.nodes:
-            if n.kind != 'test' or not any(
-                    call_name(c) == 'self.is_canceled' for c in calls_in(n.ast)):
-                continue
-            loops = [g.nodes[h] for h in n.loops if g.nodes[h].kind == 'for']
-            if not loops:
-                continue
-            H = loops[-1]
-            tvs = stores_in_target(H.ast.target)
-            call = [c for c in calls_in(n.ast)
-                    if call_name(c) == 'self.is_canceled'][0]
-            if not (call.args and isinstance(call.args[0], ast.Name) and
-                    call.args[0].id in tvs):
-                continue
-            truth = True
-            a = n.ast
-            if isinstance(a, ast.Compare) and len(a.ops) == 1 and \
-                    isinstance(a.comparators[0], ast.Constant):
-                truth = bool(a.comparators[0].value) == isinstance(
-                    a.ops[0], (ast.Is, ast.Eq))
-            keep_lab = 'F' if truth else 'T'
-            apps = [smap[id(c)] for c in calls_in(H.ast)
-                    if isinstance(c.func, ast.Attribute) and
-                    c.func.attr == 'append' and c.args and
-                    isinstance(c.args[0], ast.Name) and c.args[0].id in tvs]
-            start = loop_slice(g, H.id)[0]
-            okl = len(apps) == 1 and (n.id, keep_lab) in guards(
-                g, apps[0].id, start=start) and \
-                len(guards(g, apps[0].id, start=start)) == 1
-            if okl:
-                kept = unparse([c for c in calls_in(H.ast)
-                                if isinstance(c.func, ast.Attribute) and
-                                c.func.attr == 'append'][0].func.value)
-                # the kept list replaces / is what the worker receives
-                src = unparse(H.ast.iter)
-                flows = any(isinstance(x, ast.Assign) and
-                            unparse(x.value) == kept and
-                            unparse(x.targets[0]) == src
-                            for x in walk(f.node)) or any(
-                    kept in [unparse(z) for z in c.args]
-                    for c in calls_in(f.node)
-                    if 'self._workers' in unparse(c.func))
-                okl = flows
-            break
-        if okl is None:
-            raise AnalysisError('UNRECOGNISED-IDIOM %s: intake filter on '
-                                'is_canceled not found' % f.where)
-        rep.check(okl, rid, f, 'work_cb keeps exactly the things for which '
-                  'is_canceled() is false (loop form)', construct='intake-loop',
-                  message='the intake filter loop of work_cb does not keep '
-                  'exactly the not-canceled things of the bulk', loc=f.loc(),
-                  history='a cancel request for one task of a bulk: the other '
-                  'tasks of the bulk are dropped (or the named one is '
-                  'processed)')
-        filt = False
-    if filt is not False:
-        gen = filt.generators[0]
-        cond = gen.ifs[0] if gen.ifs else None
-        tv = gen.target.id if isinstance(gen.target, ast.Name) else None
-        neg = isinstance(cond, ast.UnaryOp) and isinstance(cond.op, ast.Not) and \
-            isinstance(cond.operand, ast.Call) and \
-            call_name(cond.operand) == 'self.is_canceled' and \
-            cond.operand.args and unparse(cond.operand.args[0]) == tv
-        same = isinstance(filt.elt, ast.Name) and filt.elt.id == tv and \
-            len(gen.ifs) == 1 and len(filt.generators) == 1
-        # assigned back to the list that is worked on
-        asg = [n for n in walk(f.node) if isinstance(n, ast.Assign) and
-               n.value is filt]
-        worked = asg and unparse(asg[0].targets[0]) == unparse(gen.iter)
-        rep.check(neg and same and worked, rid, f, 'work_cb keeps exactly the '
-                  'things for which is_canceled() is false', construct=filt,
-                  message='the intake filter `%s` does not keep exactly the '
-                  'not-canceled things of the bulk' % short(filt, 70),
-                  loc=f.loc(filt),
-                  history='a cancel request for one task of a bulk: the other '
-                  'tasks of the bulk are dropped (or the named one is processed)')
+    _intake_rule(prog, rep, rid, comp)
 
     # (d) scheduler control_cb: queue hand-over and raptor backlog
     sb = prog.cls(*SBASE)
@@ -298,14 +740,41 @@ def r08_1(prog, rep, rid='R08.1'):
     back_al0 = I.Aliases(prog, None, {f.name: f}, 'self._raptor_tasks')
     comps = [n for n in walk(f.node) if isinstance(n, ast.ListComp) and
              back_al0.is_rooted_expr(f.name, n.generators[0].iter)]
+    parent = {}
+    for n in walk(f.node):
+        if isinstance(n, (ast.Assign, ast.AugAssign)) and n.value in comps:
+            parent[id(n.value)] = n
+    picks, keeps = [], []     # selection by `in`, retention by `not in`
     for lc in comps:
         gen = lc.generators[0]
         cond = gen.ifs[0] if len(gen.ifs) == 1 else None
-        okc = isinstance(cond, ast.Compare) and len(cond.ops) == 1 and \
-            isinstance(cond.ops[0], ast.In) and \
+        keyed = isinstance(cond, ast.Compare) and len(cond.ops) == 1 and \
+            isinstance(cond.ops[0], (ast.In, ast.NotIn)) and \
             unparse(cond.left) == "%s['uid']" % unparse(gen.target) and \
             ("%s['uids']" % av) in d.expr_depends(cond.comparators[0]) and \
-            unparse(lc.elt) == unparse(gen.target)
+            unparse(lc.elt) == unparse(gen.target) and \
+            len(lc.generators) == 1
+        okc = keyed and isinstance(cond.ops[0], ast.In)
+        if okc:
+            picks.append(lc)
+        # the complement, stored back into the very list it was computed
+        # from (`backlog[:] = [..not in uids]`), is the removal of the
+        # selected tasks
+        st = parent.get(id(lc))
+        if keyed and not okc and isinstance(st, ast.Assign) and \
+                len(st.targets) == 1:
+            t = st.targets[0]
+            whole = isinstance(t, ast.Subscript) and \
+                isinstance(t.slice, ast.Slice) and t.slice.lower is None and \
+                t.slice.upper is None and t.slice.step is None
+            if (whole and unparse(t.value) == unparse(gen.iter)) or (
+                    isinstance(t, ast.Subscript) and not whole and
+                    unparse(t) == unparse(gen.iter)):
+                keeps.append(lc)
+                rep.ok(rid, f, 'raptor backlog: exactly the tasks whose uid '
+                       'is not in the request are kept (`%s`)' % short(st, 60),
+                       f.loc(lc))
+                continue
         rep.check(okc, rid, f, "raptor backlog: exactly the tasks whose uid is "
                   "in the request are selected", construct=lc,
                   message="the raptor backlog filter `%s` does not select "
@@ -382,8 +851,45 @@ def r08_1(prog, rep, rid='R08.1'):
                     stray.append(cc)
         for n in walk(f.node):
             if isinstance(n, ast.AugAssign) and unparse(n.target) in Ls and \
-                    isinstance(n.value, ast.Name) and n.value.id in sel:
+                    ((isinstance(n.value, ast.Name) and n.value.id in sel) or
+                     n.value in picks):
                 collected = True
+        for cc in calls_in(f.node):
+            if isinstance(cc.func, ast.Attribute) and cc.func.attr == 'extend' \
+                    and unparse(cc.func.value) in Ls and cc.args and \
+                    cc.args[0] in picks:
+                collected = True
+                if cc in stray:
+                    stray.remove(cc)
+        # partition form: the selection is evaluated first, then the backlog
+        # is overwritten by its complement - same list, same iteration,
+        # nothing in between that could skip one of the two
+        for lc in keeps:
+            kn = smap[id(lc)]
+            it = unparse(lc.generators[0].iter)
+            mates = [smap[id(pc)] for pc in picks
+                     if unparse(pc.generators[0].iter) == it and
+                     smap[id(pc)].loops == kn.loops]
+            start = loop_slice(g, kn.loops[-1])[0] if kn.loops else g.entry.id
+            inner = g.loop_body[kn.loops[-1]] if kn.loops else None
+            free = lambda x: not [y for y in guards(g, x.id)
+                                  if inner is not None and y[0] in inner]
+            if mates and free(kn) and all(free(m) for m in mates) and \
+                    must_pass(g, start, kn.id, [m.id for m in mates]):
+                removed = True
+            else:
+                stray.append(parent[id(lc)])
+        # the list handed on is built by a helper this rule does not follow
+        for n in walk(f.node):
+            if isinstance(n, ast.Assign) and any(
+                    isinstance(t, ast.Name) and t.id in Ls for t in n.targets) \
+                    and isinstance(n.value, ast.Call) and \
+                    call_name(n.value).startswith('self.') and \
+                    not I.is_handon(n.value) and prog.resolve_call(
+                        f, n.value, sb) is not None and not collected:
+                raise AnalysisError('UNRECOGNISED-IDIOM %s: the tasks handed '
+                                    'on as CANCELED are collected by %s'
+                                    % (f.where, call_name(n.value)))
         any_coll = any(isinstance(cc.func, ast.Attribute) and
                        unparse(cc.func.value) in Ls and cc.func.attr in
                        ('append', 'extend') for cc in calls_in(f.node))
@@ -394,7 +900,7 @@ def r08_1(prog, rep, rid='R08.1'):
             isinstance(x, ast.Delete) and back_al.is_rooted_expr(
                 f.name, x.targets[0]) for x in walk(f.node))
         if not (collected and removed and not stray) and any_coll and any_rem \
-                and not sel:
+                and not sel and not picks:
             # collection and removal exist but the selection is not built
             # the way the recogniser knows (helper, explicit loop, ..)
             raise AnalysisError('UNRECOGNISED-IDIOM %s: raptor backlog '
@@ -578,14 +1084,12 @@ def handlers(prog):
             g = cfg_of(f)
             smap = I.stmt_node_map(g)
             for n in g.nodes:
-                if n.kind == 'test' and isinstance(n.ast, ast.Compare) and \
-                        len(n.ast.ops) == 1 and \
-                        isinstance(n.ast.ops[0], ast.Eq) and \
-                        unparse(n.ast.left) == cmd_var(f) and \
-                        isinstance(n.ast.comparators[0], ast.Constant):
-                    cmd = n.ast.comparators[0].value
-                    t = [e.dst for e in g.succ[n.id] if e.label == 'T']
-                    ff = [e.dst for e in g.succ[n.id] if e.label == 'F']
+                ct = _cmd_test(n)
+                if ct and unparse(n.ast.left) == cmd_var(f):
+                    cmd = ct[0]
+                    t = [e.dst for e in g.succ[n.id] if e.label == ct[1]]
+                    ff = [e.dst for e in g.succ[n.id]
+                          if e.label in ('T', 'F') and e.label != ct[1]]
                     rt, rf = set(), set()
                     for s in t:
                         rt |= g.reachable(s)
@@ -716,6 +1220,604 @@ def r08_5(prog, rep, rid='R08.5', sweep=False):
 
 
 # ------------------------------------------------------------------------------
+# R08.6  a task that enters the wait pool is checked against the cancel list
+#
+POOL = 'self._waitpool'
+
+
+def _pool_names(f):
+    """local names bound to one priority level of the wait pool:
+    `pool = self._waitpool[p]`, `.get(p)`, `.setdefault(p, ..)`,
+    `for p, pool in self._waitpool.items()`, `for pool in ...values()`"""
+    out = set()
+
+    def level(e):
+        if isinstance(e, ast.Subscript) and unparse(e.value) == POOL:
+            return True
+        return isinstance(e, ast.Call) and isinstance(e.func, ast.Attribute) \
+            and e.func.attr in ('get', 'setdefault') and \
+            unparse(e.func.value) == POOL
+    for n in walk(f.node):
+        if isinstance(n, ast.Assign) and level(n.value):
+            for t in n.targets:
+                if isinstance(t, ast.Name):
+                    out.add(t.id)
+        elif isinstance(n, (ast.For, ast.comprehension)) and \
+                isinstance(n.iter, ast.Call) and \
+                isinstance(n.iter.func, ast.Attribute) and \
+                unparse(n.iter.func.value) == POOL:
+            if n.iter.func.attr == 'values' and isinstance(n.target, ast.Name):
+                out.add(n.target.id)
+            elif n.iter.func.attr == 'items' and \
+                    isinstance(n.target, ast.Tuple) and \
+                    len(n.target.elts) == 2 and \
+                    isinstance(n.target.elts[1], ast.Name):
+                out.add(n.target.elts[1].id)
+    return out
+
+
+def _is_pool_level(e, pools):
+    """expression denotes self._waitpool[<priority>]"""
+    if isinstance(e, ast.Name):
+        return e.id in pools
+    if isinstance(e, ast.Subscript):
+        return unparse(e.value) == POOL
+    return isinstance(e, ast.Call) and isinstance(e.func, ast.Attribute) and \
+        e.func.attr in ('get', 'setdefault') and unparse(e.func.value) == POOL
+
+
+def _empty_container(e):
+    if isinstance(e, (ast.Dict, ast.List, ast.Set, ast.Tuple)):
+        return not (getattr(e, 'keys', None) or getattr(e, 'elts', None))
+    return isinstance(e, ast.Call) and dotted(e.func).split('.')[-1] in (
+        'dict', 'defaultdict', 'OrderedDict', 'list', 'set', 'deque') and not [
+            a for a in e.args if not (isinstance(a, ast.Name) or
+                                      _empty_container(a))] and not e.keywords
+
+
+def _stores_name(n, name):
+    """cfg node (re-)binds the plain name"""
+    if n.ast is None:
+        return False
+    if n.kind == 'for':
+        return name in stores_in_target(n.ast.target)
+    if n.kind == 'with':
+        return any(i.optional_vars is not None and
+                   name in stores_in_target(i.optional_vars)
+                   for i in n.ast.items)
+    if n.kind == 'handler':
+        return getattr(n.ast, 'name', None) == name
+    if n.kind == 'stmt':
+        if isinstance(n.ast, ast.Assign):
+            return any(name in stores_in_target(t) for t in n.ast.targets)
+        if isinstance(n.ast, (ast.AugAssign, ast.AnnAssign)):
+            return name in stores_in_target(n.ast.target)
+        if isinstance(n.ast, ast.Delete):
+            return any(isinstance(t, ast.Name) and t.id == name
+                       for t in n.ast.targets)
+    return False
+
+
+def _flow_to(g, starts, via, targets, skip_edges=()):
+    """ids of `targets` that are reached from `starts` along normal edges
+    without passing a node of `via` (edges in skip_edges are not taken)"""
+    seen, hit = set(), set()
+    todo = list(starts)
+    while todo:
+        x = todo.pop()
+        if x in seen:
+            continue
+        seen.add(x)
+        if x in via:
+            continue
+        if x in targets:
+            hit.add(x)
+            continue
+        for e in g.succ[x]:
+            if e.label in NORMAL and (e.src, e.label) not in skip_edges:
+                todo.append(e.dst)
+    return hit, seen
+
+
+def _value_at(g, e, node, same=(), canon=None):
+    """source text of e, a plain name being replaced by its only reaching
+    definition; names in `same` (plain copies of one value) are spelled
+    `canon`"""
+    if isinstance(e, ast.Name) and e.id not in same:
+        rd = reaching_defs(g, e.id, node.id)
+        if len(rd) == 1 and rd[0][1] is not None:
+            e = rd[0][1]
+    if same:
+        e = copy.deepcopy(e)
+        for x in ast.walk(e):
+            if isinstance(x, ast.Name) and x.id in same:
+                x.id = canon
+    return unparse(e)
+
+
+def waitpool_insertions(f, g, d):
+    """[(cfg node, container expr, key expr, value expr)] for every store of
+    one element into a priority level of the wait pool inside f.  Replacing a
+    whole level by a mapping computed from the pool itself (re-filing what
+    already waits) or by an empty container is not an insertion."""
+    pools = _pool_names(f)
+    smap = I.stmt_node_map(g)
+    out = []
+    for n in g.nodes:
+        if n.kind != 'stmt':
+            continue
+        if isinstance(n.ast, ast.Assign):
+            for t in n.ast.targets:
+                if not isinstance(t, ast.Subscript):
+                    continue
+                if _is_pool_level(t.value, pools):
+                    out.append((n, t.value, t.slice, n.ast.value))
+                elif unparse(t.value) == POOL:
+                    v = n.ast.value
+                    if not (_empty_container(v) or
+                            POOL in d.expr_depends(v)):
+                        raise AnalysisError(
+                            'UNRECOGNISED-IDIOM %s: `%s` replaces a level of '
+                            'the wait pool' % (f.where, short(n.ast, 50)))
+        for c in calls_in(n.ast):
+            if not isinstance(c.func, ast.Attribute) or \
+                    c.func.attr not in ('setdefault', 'update', '__setitem__'):
+                continue
+            if _is_pool_level(c.func.value, pools):
+                if c.func.attr in ('setdefault', '__setitem__') and \
+                        len(c.args) == 2:
+                    out.append((n, c.func.value, c.args[0], c.args[1]))
+                else:
+                    raise AnalysisError(
+                        'UNRECOGNISED-IDIOM %s: `%s` on the wait pool'
+                        % (f.where, short(c, 50)))
+            elif unparse(c.func.value) == POOL and not (
+                    c.func.attr == 'setdefault' and len(c.args) == 2 and
+                    _empty_container(c.args[1])):
+                raise AnalysisError('UNRECOGNISED-IDIOM %s: `%s` on the wait '
+                                    'pool' % (f.where, short(c, 50)))
+    return out
+
+
+def r08_6(prog, rep, rid='R08.6'):
+    rep.rule(rid, 'a task that is put into the wait pool is checked against '
+             'the cancel list (is_canceled) on every path - whatever else '
+             'happened in that call - and is taken out again when the answer '
+             'is true', minimum=1)
+    sb = prog.cls(*SBASE)
+    funcs = []
+    for k in [sb] + [c for c in prog.subclasses(sb, strict=True)]:
+        for f in k.methods.values():
+            if f not in funcs and '_waitpool' in unparse(f.node):
+                funcs.append(f)
+    hist = ('the nodes are full.  The cancel request for a task that is still '
+            'on its way to the scheduler process is pulled from the queue in '
+            'one call of _schedule_incoming (the task is not in the wait pool '
+            'yet: nothing to remove).  The task arrives in a later call, '
+            'cannot be placed and is put into the wait pool without the '
+            'check: it waits, is placed when resources are released, and runs '
+            'although it was canceled')
+    for f in funcs:
+        g = cfg_of(f)
+        d = Deps(f.node)
+        ins = waitpool_insertions(f, g, d)
+        if not ins:
+            continue
+        rep.saw(f)
+        pools = _pool_names(f)
+        ben = benign_edges(f, g)
+        for n, cont, key, val in ins:
+            if not isinstance(val, ast.Name):
+                raise AnalysisError('UNRECOGNISED-IDIOM %s: `%s` puts something '
+                                    'into the wait pool that is not a plain '
+                                    'name' % (f.where, short(n.ast, 50)))
+            v = val.id
+            # the task may be known under a plain copy of the name
+            pairs = [(t.id, x.value.id) for x in walk(f.node)
+                     if isinstance(x, ast.Assign) and
+                     isinstance(x.value, ast.Name)
+                     for t in x.targets if isinstance(t, ast.Name)]
+            same = {v}
+            for _ in range(3):
+                for a, b in pairs:
+                    if a in same or b in same:
+                        same |= {a, b}
+            tu = TruthUses(f, g, lambda e: True if (
+                isinstance(e, ast.Call) and
+                call_name(e) == 'self.is_canceled' and len(e.args) == 1 and
+                isinstance(e.args[0], ast.Name) and e.args[0].id in same)
+                else None)
+            rebinds = {x.id for x in g.nodes if _stores_name(x, v)}
+            ends = rebinds | {g.exit.id}
+            evals = {x.id for x in tu.evals}
+            starts = [e.dst for e in g.succ[n.id] if e.label in NORMAL]
+            what = '`%s`' % short(n.ast, 50)
+            # (a) the check dominates the insertion: the task is inserted
+            # only on the "not canceled" edge of a check of the same binding
+            before = False
+            gn = set(guards(g, n.id))
+            for tn, lab in tu.sites:
+                miss = 'F' if lab == 'T' else 'T'
+                if (tn.id, miss) not in gn:
+                    continue
+                between = False
+                after = set()
+                for e in g.succ[tn.id]:
+                    if e.label == miss:
+                        after |= g.reachable(e.dst, skip_nodes={tn.id, n.id},
+                                             labels=NORMAL)
+                for rb in rebinds & after:
+                    if n.id in g.reachable(rb, skip_nodes={tn.id},
+                                           labels=NORMAL):
+                        between = True
+                if not between:
+                    before = True
+            if before:
+                rep.ok(rid, f, '%s: only on the not-canceled edge of '
+                       'is_canceled(%s)' % (what, v), f.loc(n.ast))
+                continue
+            # (b) the check follows the insertion on every path
+            kv = _value_at(g, key, n, same, v)
+            # `<key> in <the pool>` right after the insertion is true
+            skip = set(ben)
+            for x in g.nodes:
+                if x.kind == 'test' and isinstance(x.ast, ast.Compare) and \
+                        len(x.ast.ops) == 1 and \
+                        isinstance(x.ast.ops[0], (ast.In, ast.NotIn)) and \
+                        _is_pool_level(x.ast.comparators[0], pools) and \
+                        _value_at(g, x.ast.left, x, same, v) == kv:
+                    skip.add((x.id, 'F' if isinstance(x.ast.ops[0], ast.In)
+                              else 'T'))
+            missed, seen = _flow_to(g, starts, evals, ends, skip_edges=skip)
+            # what can happen to this binding of the task after the insertion
+            scope = _flow_to(g, starts, rebinds, set())[1]
+            after_evals = evals & scope
+            if missed:
+                if not after_evals:
+                    later = _flow_to(g, starts, set(), set())[1]
+                    if any(call_name(c) == 'self.is_canceled'
+                           for x in later if g.nodes[x].ast is not None
+                           for c in calls_in(
+                               g.nodes[x].ast.iter if g.nodes[x].kind == 'for'
+                               else g.nodes[x].ast)
+                           if g.nodes[x].kind in ('stmt', 'test', 'for')):
+                        raise AnalysisError(
+                            'UNRECOGNISED-IDIOM %s: %s is followed by a '
+                            'cancel check of something else than `%s`'
+                            % (f.where, what, v))
+                    helpers = [c for c in calls_in(f.node)
+                               if call_name(c).startswith('self.') and
+                               any(isinstance(a, ast.Name) and a.id == v
+                                   for a in c.args) and id(c) in
+                               I.stmt_node_map(g) and
+                               I.stmt_node_map(g)[id(c)].id in seen]
+                    for c in helpers:
+                        h = prog.resolve_call(f, c, f.cls)
+                        if h is not None and any(
+                                call_name(x) == 'self.is_canceled'
+                                for x in calls_in(h.node)):
+                            raise AnalysisError(
+                                'UNRECOGNISED-IDIOM %s: the cancel check of '
+                                'a task put into the wait pool is inside %s'
+                                % (f.where, h.qual))
+                    rep.bad(rid, f, n.ast, '%s puts `%s` into the wait pool '
+                            '(%s) and never asks is_canceled(%s) afterwards: '
+                            'a task whose cancel request was consumed before '
+                            'it arrived stays in the pool and is started later'
+                            % (f.qual, v, what, v), f.loc(n.ast), history=hist)
+                    continue
+                extra = set()
+                for x in after_evals:
+                    extra |= set(guards(g, x)) - gn
+                extra -= {(t, 'T' if lab == 'F' else 'F') for t, lab in skip}
+                # a guard that looks at the task, its key or the pool may
+                # be "conditional on the insertion itself": not decided here
+                related = {v, POOL} | pools | names_in(key)
+                related.discard('self')
+                unrel = [t for t, lab in extra if not (
+                    reads_through_defs(g, g.nodes[t].ast, g.nodes[t])
+                    & related)]
+                if not extra or len(unrel) != len(extra):
+                    raise AnalysisError(
+                        'UNRECOGNISED-IDIOM %s: is_canceled(%s) after %s is '
+                        'not evaluated on every path (guards: %s)' % (
+                            f.where, v, what,
+                            [short(g.nodes[t].ast, 30) for t, lab in extra]))
+                rep.bad(rid, f, n.ast, '%s puts `%s` into the wait pool (%s) '
+                        'but asks is_canceled(%s) only when %s - a condition '
+                        'that says nothing about this task: when it does not '
+                        'hold, a task whose cancel request was consumed '
+                        'earlier (its uid is still in the cancel list) stays '
+                        'in the pool, is placed later and runs' % (
+                            f.qual, v, what, v, ' and '.join(sorted(
+                                '`%s` is %s' % (short(g.nodes[t].ast, 40),
+                                                'true' if lab == 'T' else
+                                                'false')
+                                for t, lab in extra))),
+                        f.loc(n.ast), history=hist)
+                continue
+            # (c) a true answer takes the task out of the pool again
+            rem = set()
+            for x in g.nodes:
+                if x.kind != 'stmt':
+                    continue
+                if isinstance(x.ast, ast.Delete):
+                    for t in x.ast.targets:
+                        if isinstance(t, ast.Subscript) and \
+                                _is_pool_level(t.value, pools) and \
+                                _value_at(g, t.slice, x, same, v) == kv:
+                            rem.add(x.id)
+                for c in calls_in(x.ast):
+                    if isinstance(c.func, ast.Attribute) and \
+                            c.func.attr == 'pop' and c.args and \
+                            _is_pool_level(c.func.value, pools) and \
+                            _value_at(g, c.args[0], x, same, v) == kv:
+                        rem.add(x.id)
+            sites = [(tn, lab) for tn, lab in tu.sites if tn.id in scope]
+            stays = not sites
+            for tn, lab in sites:
+                hs = [e.dst for e in g.succ[tn.id] if e.label == lab]
+                if _flow_to(g, hs, rem, ends)[0]:
+                    stays = True
+            rep.check(not stays, rid, f, '%s: is_canceled(%s) follows on every '
+                      'path and a true answer removes the task from the pool'
+                      % (what, v), construct=n.ast,
+                      message='%s puts `%s` into the wait pool (%s); when '
+                      'is_canceled(%s) then answers True (it has advanced the '
+                      'task to CANCELED) the task is not taken out of the pool '
+                      'on every path: a CANCELED task is placed and started '
+                      'later' % (f.qual, v, what, v), loc=f.loc(n.ast),
+                      history='cancel request for a task that is on its way '
+                      'to the scheduler while the nodes are full')
+
+
+# ------------------------------------------------------------------------------
+# R08.8  a single uid given as a string is wrapped into a list, not iterated
+#
+def _scalar_sites(f, g):
+    """[(test node, edge label taken for a scalar, variable name)] for tests
+    `isinstance(X, list)` / `isinstance(X, (list, tuple))` (scalar: false) and
+    `isinstance(X, str)` (scalar: true), directly or through a local name"""
+    def kind_of(e):
+        if isinstance(e, ast.Call) and isinstance(e.func, ast.Name) and \
+                e.func.id == 'isinstance' and len(e.args) == 2 and \
+                isinstance(e.args[0], ast.Name):
+            t = e.args[1]
+            ts = [x.id for x in (t.elts if isinstance(t, ast.Tuple)
+                                 else [t]) if isinstance(x, ast.Name)]
+            if 'list' in ts and 'str' not in ts:
+                return 'list', e.args[0].id
+            if ts == ['str']:
+                return 'str', e.args[0].id
+        return None
+    keys = {kind_of(c) for c in calls_in(f.node)} - {None}
+    out = []
+    for kind, x in sorted(keys):
+        tu = TruthUses(f, g, lambda e: True if kind_of(e) == (kind, x)
+                       else None)
+        for n, lab in tu.sites:
+            scalar = ('F' if lab == 'T' else 'T') if kind == 'list' else lab
+            out.append((n, scalar, x))
+    return out
+
+
+def _wrap_kind(v, x):
+    """'wrap' / 'iterate' / None for a value built from the scalar named x"""
+    def isx(e):
+        return isinstance(e, ast.Name) and e.id == x
+    if isinstance(v, (ast.List, ast.Tuple, ast.Set)):
+        if len(v.elts) == 1 and isx(v.elts[0]):
+            return 'wrap'
+        if any(isinstance(e, ast.Starred) and isx(e.value) for e in v.elts):
+            return 'iterate'
+    if isinstance(v, ast.Call) and v.args and isx(v.args[0]):
+        fn = dotted(v.func).split('.')[-1]
+        if fn == 'as_list':
+            return 'wrap'
+        if fn in ('list', 'tuple', 'set', 'sorted', 'frozenset', 'reversed',
+                  'deque'):
+            return 'iterate'
+    if isinstance(v, (ast.ListComp, ast.SetComp, ast.GeneratorExp)) and \
+            isx(v.generators[0].iter):
+        return 'iterate'
+    return None
+
+
+def r08_8(prog, rep, rid='R08.8'):
+    rep.rule(rid, 'where a request may name a single task by a plain string '
+             '(Task.cancel does), the string is wrapped into a one-element '
+             'list - never turned into a list by iterating it', minimum=2)
+    comp = prog.cls(*COMP)
+    tm = prog.cls(*TMGR)
+    sites = [prog.find_method(tm, 'cancel_tasks')]
+    for m in comp.methods.values():
+        if any((isinstance(n, ast.AugAssign) and
+                unparse(n.target) == 'self._cancel_list') or
+               (isinstance(n, ast.Call) and isinstance(n.func, ast.Attribute)
+                and n.func.attr in ('extend', 'append') and
+                unparse(n.func.value) == 'self._cancel_list')
+               for n in walk(m.node)):
+            sites.append(m)
+    hist = ("task.cancel() calls TaskManager.cancel_tasks(self.uid) with a "
+            "string: the request then names the characters 't', 'a', 's', "
+            "'k', .. - no component, scheduler or executor matches the task, "
+            "it runs to completion")
+    for f in sites:
+        rep.saw(f)
+        g = cfg_of(f)
+        found = False
+        for tn, lab, x in _scalar_sites(f, g):
+            for n in g.nodes:
+                if n.kind != 'stmt' or not isinstance(n.ast, ast.Assign) or \
+                        (tn.id, lab) not in guards(g, n.id):
+                    continue
+                names = [t.id for t in n.ast.targets
+                         if isinstance(t, ast.Name)]
+                if not names or x not in names_in(n.ast.value):
+                    continue
+                kind = _wrap_kind(n.ast.value, x)
+                if kind is None:
+                    raise AnalysisError('UNRECOGNISED-IDIOM %s: `%s` for a '
+                                        'value that is not a list' % (
+                                            f.where, short(n.ast, 50)))
+                found = True
+                rep.check(kind == 'wrap', rid, f, '`%s`: a single uid is '
+                          'wrapped into a list' % short(n.ast, 40),
+                          construct=n.ast, message='%s turns an argument that '
+                          'is not a list into one with `%s`: for a single uid '
+                          'given as a string this yields the list of its '
+                          'characters, the request names no task' % (
+                              f.qual, short(n.ast, 50)), loc=f.loc(n.ast),
+                          history=hist)
+        if not found and f.cls is tm:
+            # no normalisation in the publisher: fine unless somebody passes
+            # a single uid
+            p = [a for a in f.params if a != 'self'][0]
+            aslist = any(isinstance(n, ast.Assign) and
+                         _wrap_kind(n.value, p) == 'wrap'
+                         for n in walk(f.node))
+            scalar_callers = [
+                (h, c) for m in prog.modules.values()
+                for k in m.classes.values() for h in k.methods.values()
+                for c in calls_in(h.node)
+                if isinstance(c.func, ast.Attribute) and
+                c.func.attr == 'cancel_tasks' and len(c.args) == 1 and
+                unparse(c.args[0]) == 'self.uid']
+            rep.check(aslist or not scalar_callers, rid, f, 'cancel_tasks '
+                      'normalises a single uid to a list', construct=
+                      'tmgr:normalise', message='TaskManager.cancel_tasks '
+                      'publishes its argument as it came, but %s passes a '
+                      'single uid as a string: the scheduler and executor '
+                      'handlers iterate arg[\'uids\'] and see its characters'
+                      % (scalar_callers[0][0].qual if scalar_callers else ''),
+                      loc=f.loc(), history=hist)
+
+
+# ------------------------------------------------------------------------------
+# R08.9  what leaves the wait pool leaves it one uid at a time
+#
+def r08_9(prog, rep, rid='R08.9'):
+    rep.rule(rid, 'removals from the wait pool take out single entries '
+             '(`del self._waitpool[p][uid]`, `.pop(uid)`); no statement drops '
+             'a whole priority level with everything that waits in it',
+             minimum=2)
+    sb = prog.cls(*SBASE)
+    funcs = []
+    for k in [sb] + [c for c in prog.subclasses(sb, strict=True)]:
+        for f in k.methods.values():
+            if f not in funcs and '_waitpool' in unparse(f.node):
+                funcs.append(f)
+    hist = ('cancel request naming one waiting task: every task that waits '
+            'at the same priority disappears from the wait pool with it - '
+            'the bystanders are never placed and never get a final state')
+    for f in funcs:
+        g = cfg_of(f)
+        pools = _pool_names(f)
+        smap = I.stmt_node_map(g)
+        for n in walk(f.node):
+            level = entry = None
+            if isinstance(n, ast.Delete):
+                for t in n.targets:
+                    if isinstance(t, ast.Subscript) and \
+                            unparse(t.value) == POOL:
+                        level = n
+                    elif isinstance(t, ast.Subscript) and \
+                            _is_pool_level(t.value, pools):
+                        entry = n
+            elif isinstance(n, ast.Call) and isinstance(n.func, ast.Attribute):
+                if unparse(n.func.value) == POOL and \
+                        n.func.attr in ('pop', 'popitem', 'clear'):
+                    level = n
+                elif _is_pool_level(n.func.value, pools) and \
+                        n.func.attr in ('clear', 'popitem'):
+                    level = n
+                elif _is_pool_level(n.func.value, pools) and \
+                        n.func.attr == 'pop' and n.args:
+                    entry = n
+            if entry is not None:
+                rep.saw(f)
+                rep.ok(rid, f, '`%s` removes one entry' % short(entry, 50),
+                       f.loc(entry))
+            if level is None:
+                continue
+            rep.saw(f)
+            node = smap.get(id(level))
+            # dropping a level that is known to be empty loses nobody
+            if node is not None and any(
+                    POOL in unparse(g.nodes[t].ast) or
+                    names_in(g.nodes[t].ast) & pools
+                    for t, lab in guards(g, node.id)):
+                raise AnalysisError('UNRECOGNISED-IDIOM %s: `%s` under a '
+                                    'guard on the wait pool' % (
+                                        f.where, short(level, 50)))
+            rep.bad(rid, f, level, '%s executes `%s`: this drops a whole '
+                    'priority level of the wait pool - all tasks waiting '
+                    'there, not only a named one - and none of them is handed '
+                    'on' % (f.qual, short(level, 50)), f.loc(level),
+                    history=hist)
+
+
+# ------------------------------------------------------------------------------
+# R08.10  "already finished" is decided by comparing the exit status with None
+#
+def r08_10(prog, rep, rid='R08.10'):
+    rep.rule(rid, 'the result of <process>.poll() is compared with None to '
+             'tell a finished process from a running one; it is not tested '
+             'for truth (exit status 0 is a finished process)', minimum=2)
+    po = prog.cls(*POPEN)
+
+    def is_poll(e):
+        return True if (isinstance(e, ast.Call) and
+                        isinstance(e.func, ast.Attribute) and
+                        e.func.attr == 'poll' and not e.args and
+                        not e.keywords) else None
+
+    def none_cmp(e):
+        """(operand, label taken when the operand is not None)"""
+        e, pol = strip_truth(e)
+        if isinstance(e, ast.Compare) and len(e.ops) == 1 and \
+                isinstance(e.ops[0], (ast.Is, ast.IsNot, ast.Eq, ast.NotEq)) \
+                and isinstance(e.comparators[0], ast.Constant) and \
+                e.comparators[0].value is None:
+            isnone = isinstance(e.ops[0], (ast.Is, ast.Eq))
+            return e.left, 'T' if (not isnone) == pol else 'F'
+        return None
+    for f in po.methods.values():
+        if not any(is_poll(c) for c in calls_in(f.node)):
+            continue
+        rep.saw(f)
+        g = cfg_of(f)
+        tu = TruthUses(f, g, is_poll)
+        names = {b[1] for b in tu.bound}
+        # tests that compare the status with None, and the edges on which it
+        # is known to be an exit code
+        known = set()
+        for n in g.nodes:
+            if n.kind != 'test':
+                continue
+            nc = none_cmp(n.ast)
+            if nc is None:
+                continue
+            v = nc[0]
+            if is_poll(v) or (isinstance(v, ast.Name) and v.id in names and
+                              tu._def_of(v.id, n) is not None):
+                known.add((n.id, nc[1]))
+                rep.ok(rid, f, '`%s` compares the exit status with None'
+                       % short(n.ast, 40), f.loc(n.ast))
+        for n, lab in tu.sites:
+            if set(guards(g, n.id)) & known:
+                continue                  # zero / non-zero of an exit code
+            rep.bad(rid, f, n.ast, '%s tests the result of poll() for truth '
+                    '(`%s`): a process that has exited with status 0 looks '
+                    'like one that is still running (None)' % (
+                        f.qual, short(n.ast, 40)), f.loc(n.ast),
+                    history='cancel request for a task whose process has just '
+                    'exited with status 0 and is not collected yet: '
+                    'cancel_task does not see that it is finished, takes it '
+                    'from the watcher and ends it as CANCELED instead of DONE')
+
+
+# ------------------------------------------------------------------------------
 #
 def run(prog, rep, tier):
     rep.decided = ("the cancel list grows only by arg['uids'] of cancel_tasks "
@@ -727,7 +1829,13 @@ def run(prog, rep, tier):
         "the task it was given and records CANCELED; message keys read by "
         "cancel handlers are written by the publisher, which sets fwd=True. "
         "Wait-pool removal keyed by uid: R04.5; exactly-once release and "
-        "arbitration of running tasks: R07.1/R07.2 (re-evaluated here).")
+        "arbitration of running tasks: R07.1/R07.2 (re-evaluated here).  "
+        "R08.6: every insertion of a task into the wait pool is followed on "
+        "every path (or preceded, on its not-canceled edge) by is_canceled() "
+        "of that task, skipped at most while the cancel list is empty, and a "
+        "true answer removes the task from the pool again.  R08.7 (= R07.7 "
+        "re-evaluated): the contender that took a running task out of the "
+        "registry finishes it on every way out (freed once, final state).")
     rep.undecided = ('delivery timing of the request relative to the task '
         '(covered per stage by the rules above, not as a global history); '
         'whether os.killpg reaches the task processes (process groups).')
@@ -738,10 +1846,18 @@ def run(prog, rep, tier):
     rep.attempt(r08_3, prog, rep)
     rep.attempt(r08_4, prog, rep)
     rep.attempt(r08_5, prog, rep)
+    rep.attempt(r08_6, prog, rep)
+    rep.attempt(r08_8, prog, rep)
+    rep.attempt(r08_9, prog, rep)
+    rep.attempt(r08_10, prog, rep)
     from .c04 import r04_5
     rep.attempt(r04_5, prog, rep, rid='R04.5')
-    from .c07 import r07_2
+    from .c07 import r07_2, r07_7
     rep.attempt(r07_2, prog, rep, rid='R07.2')
+    # "the resources it held are freed exactly once, and it ends as CANCELED
+    # unless it had already finished": whoever takes the uid out of the
+    # registry (cancel_task or the watcher) owns the task and has to finish it
+    rep.attempt(r07_7, prog, rep, rid='R08.7')
     if tier == 'thorough':
         rep.rule('R08.4s', 'sweep: message key agreement for every command '
                  'handler in the package', minimum=0)
@@ -758,6 +1874,13 @@ _E = 'agent/executing/base.py'
 _P = 'agent/executing/popen.py'
 _L = 'agent/launch_method/base.py'
 _T = 'task_manager.py'
+
+_CHK = "\n                # now that we added the task to the waitpool, check if a cancel\n                # request has meanwhile arrived - if so remove it, otherwise it\n                # will get removed during the next iteration of the main loop\n                if self.is_canceled(task) is True:\n                    del self._waitpool[priority][uid]\n"
+_ISC = "            tid = task['uid']\n\n            if tid not in self._cancel_list:\n                return False\n\n            if 'state' in task:\n                self.advance(task, rps.CANCELED, publish=True, push=False)\n\n            # remove from cancel list\n            self._cancel_list.remove(tid)\n\n            return True\n"
+_FLT = "                    if self._cancel_list:\n                        things = [x for x in things\n                                    if not self.is_canceled(x)]\n"
+
+_NRM = "            if not isinstance(uids, list):\n                uids = [uids]\n"
+_RAP = "                for queue in self._raptor_tasks:\n                    matches = [t for t in self._raptor_tasks[queue]\n                                       if t['uid'] in uids]\n                    for task in matches:\n                        to_cancel.append(task)\n                        self._raptor_tasks[queue].remove(task)\n"
 
 MUTATIONS = [
     dict(name='R08.1 cancel list extended for every command', rules=('R08.1',), edits=[
@@ -815,6 +1938,87 @@ MUTATIONS = [
         (_S, "                    matches = [t for t in self._raptor_tasks[queue]\n                                       if t['uid'] in uids]\n                    for task in matches:\n                        to_cancel.append(task)\n                        self._raptor_tasks[queue].remove(task)\n", "                    for task in self._raptor_tasks[queue]:\n                        if task['uid'] in uids:\n                            to_cancel.append(task)\n                            self._raptor_tasks[queue].remove(task)\n")]),
     dict(name='R08.5 watcher iterates the live watch list', rules=('R08.5',), edits=[
         (_P, "        for task in list(to_watch):\n", "        for task in to_watch:\n")]),
+    dict(name='R08.6 post-insert cancel check only if a cancel request was pulled in the same call (seed C08-e)', rules=('R08.6',), edits=[
+        (_S, "        to_raptor   = defaultdict(list)  # some tasks get forwared to raptor\n        try:\n", "        to_raptor   = defaultdict(list)  # some tasks get forwared to raptor\n        cancel_seen = False\n        try:\n"),
+        (_S, "                if flag == self._CANCEL:\n                    to_cancel = list()\n", "                if flag == self._CANCEL:\n                    cancel_seen = True\n                    to_cancel = list()\n"),
+        (_S, _CHK, "                if cancel_seen and self.is_canceled(task) is True:\n                    del self._waitpool[priority][uid]\n")]),
+    dict(name='R08.6 post-insert cancel check skipped by an early continue on the per-call flag', rules=('R08.6',), edits=[
+        (_S, "        to_raptor   = defaultdict(list)  # some tasks get forwared to raptor\n        try:\n", "        to_raptor   = defaultdict(list)  # some tasks get forwared to raptor\n        seen = 0\n        try:\n"),
+        (_S, "                if flag == self._CANCEL:\n                    to_cancel = list()\n", "                if flag == self._CANCEL:\n                    seen += 1\n                    to_cancel = list()\n"),
+        (_S, _CHK, "                if not seen:\n                    continue\n                canceled = self.is_canceled(task)\n                if canceled:\n                    del self._waitpool[priority][uid]\n")]),
+    dict(name='R08.6 post-insert cancel check only while tasks are running', rules=('R08.6',), edits=[
+        (_S, _CHK, "                if self._active_cnt and self.is_canceled(task) is True:\n                    del self._waitpool[priority][uid]\n")]),
+    dict(name='R08.6 post-insert cancel check removed', rules=('R08.6',), edits=[
+        (_S, _CHK, "")]),
+    dict(name='R08.6 canceled task stays in the wait pool', rules=('R08.6',), edits=[
+        (_S, _CHK, "                if self.is_canceled(task) is True:\n                    self._log.debug('canceled: %s', uid)\n")]),
+    dict(name='R08.6 post-insert check removes the tasks which are not canceled', rules=('R08.6',), edits=[
+        (_S, _CHK, "                if self.is_canceled(task) is not True:\n                    del self._waitpool[priority][uid]\n")]),
+    dict(name='R08.7 cancel claims the task before it polls the process (seed C08-f)', rules=('R08.7',), edits=[
+        (_P, "        # check if the task is, maybe, already done\n        exit_code = proc.poll()", "        with self._check_lock:\n            if tid not in self._tasks:\n                return\n            del self._tasks[tid]\n\n        # check if the task is, maybe, already done\n        exit_code = proc.poll()"),
+        (_P, "        # remove from tasks dictionary, thus \"watcher\" will not pick it up\n        with self._check_lock:\n            if tid not in self._tasks:\n                return\n            try:\n                del self._tasks[tid]\n            except KeyError:\n                pass\n\n        # task is still running", "        # task is still running")]),
+    dict(name='R08.7 cancel gives up after it claimed the task (no launcher)', rules=('R08.7',), edits=[
+        (_P, "        launcher = self._rm.get_launcher(task['launcher_name'])\n        launcher.cancel_task(task, proc.pid)\n", "        launcher = self._rm.get_launcher(task['launcher_name'])\n        if not launcher:\n            return\n        launcher.cancel_task(task, proc.pid)\n")]),
+    dict(name='R08.1 single-exit is_canceled returns the negated membership', rules=('R08.1',), edits=[
+        (_U, _ISC, "            tid    = task['uid']\n            listed = tid in self._cancel_list\n\n            if listed:\n                if 'state' in task:\n                    self.advance(task, rps.CANCELED, publish=True, push=False)\n                self._cancel_list.remove(tid)\n\n            return not listed\n")]),
+    dict(name='R08.1 single-exit is_canceled advances on the miss side', rules=('R08.1',), edits=[
+        (_U, _ISC, "            tid    = task['uid']\n            listed = tid in self._cancel_list\n\n            if not listed:\n                if 'state' in task:\n                    self.advance(task, rps.CANCELED, publish=True, push=False)\n            else:\n                self._cancel_list.remove(tid)\n\n            return listed\n")]),
+    dict(name='R08.1 intake filter helper keeps the canceled things', rules=('R08.1',), edits=[
+        (_U, _FLT, "                    things = self._drop_canceled(things)\n"),
+        (_U, "    def work_cb(self):\n", "    def _drop_canceled(self, things):\n        if not self._cancel_list:\n            return things\n        return [thing for thing in things if self.is_canceled(thing)]\n\n    def work_cb(self):\n")]),
+    dict(name='R08.1 intake filter helper result is dropped', rules=('R08.1',), edits=[
+        (_U, _FLT, "                    self._drop_canceled(things)\n"),
+        (_U, "    def work_cb(self):\n", "    def _drop_canceled(self, things):\n        if not self._cancel_list:\n            return things\n        return [thing for thing in things if not self.is_canceled(thing)]\n\n    def work_cb(self):\n")]),
+    dict(name='R08.1 intake filter only for one state', rules=('R08.1',), edits=[
+        (_U, "                    if self._cancel_list:\n                        things = [x for x in things\n", "                    if self._cancel_list and qname:\n                        things = [x for x in things\n")]),
+    dict(name='R08.6 post-insert cancel check nested under the per-call flag', rules=('R08.6',), edits=[
+        (_S, "        to_raptor   = defaultdict(list)  # some tasks get forwared to raptor\n        try:\n", "        to_raptor   = defaultdict(list)  # some tasks get forwared to raptor\n        cs = False\n        try:\n"),
+        (_S, "                if flag == self._CANCEL:\n                    to_cancel = list()\n", "                if flag == self._CANCEL:\n                    cs = True\n                    to_cancel = list()\n"),
+        (_S, _CHK, "                if cs:\n                    if self.is_canceled(task) is True:\n                        del self._waitpool[priority][uid]\n")]),
+    dict(name='R08.6 post-insert cancel check only for bulks of waiting tasks', rules=('R08.6',), edits=[
+        (_S, _CHK, "                if len(to_wait) > 1 and self.is_canceled(task) is True:\n                    del self._waitpool[priority][uid]\n")]),
+    dict(name='R08.6 canceled task: another key is removed from the pool', rules=('R08.6',), edits=[
+        (_S, _CHK, "                if self.is_canceled(task) is True:\n                    self._waitpool[priority].pop(priority, None)\n")]),
+    dict(name='R08.1 single-exit is_canceled answers True for everything', rules=('R08.1',), edits=[
+        (_U, _ISC, "            tid = task['uid']\n            found = tid in self._cancel_list\n            if found:\n                if 'state' in task:\n                    self.advance(task, rps.CANCELED, publish=True, push=False)\n                self._cancel_list.remove(tid)\n            return True\n")]),
+    dict(name='R08.1 intake filter in loop form keeps the canceled things', rules=('R08.1',), edits=[
+        (_U, _FLT, "                    if self._cancel_list:\n                        kept = []\n                        for x in things:\n                            c = self.is_canceled(x)\n                            if not c:\n                                continue\n                            kept.append(x)\n                        things = kept\n")]),
+    dict(name='R08.1 filtered list is not what the worker gets', rules=('R08.1',), edits=[
+        (_U, _FLT, "                    if self._cancel_list:\n                        kept = [x for x in things if not self.is_canceled(x)]\n")]),
+    dict(name='R08.8 single uid turned into the list of its characters (seed C08-g1)', rules=('R08.8',), edits=[
+        (_T, _NRM, "            if not isinstance(uids, list):\n                uids = list(uids)\n")]),
+    dict(name='R08.8 same slip where the component registers the uids', rules=('R08.8',), edits=[
+        (_U, _NRM, "            if not isinstance(uids, list):\n                uids = sorted(uids)\n")]),
+    dict(name='R08.8 single uid unpacked into the list', rules=('R08.8',), edits=[
+        (_T, _NRM, "            single = not isinstance(uids, (list, tuple))\n            if single:\n                uids = [*uids]\n")]),
+    dict(name='R08.8 publisher does not normalise a single uid', rules=('R08.8',), edits=[
+        (_T, "        else:\n" + _NRM, "")]),
+    dict(name='R08.1 cancel list replaced instead of extended (seed C08-g2)', rules=('R08.1',), edits=[
+        (_U, "                self._cancel_list += uids\n", "                self._cancel_list = uids\n")]),
+    dict(name='R08.1 cancel list replaced by a copy of the request', rules=('R08.1',), edits=[
+        (_U, "                self._cancel_list += uids\n", "                self._cancel_list = list(uids)\n")]),
+    dict(name='R08.1 is_canceled advances only things without a state (seed C08-g3)', rules=('R08.1',), edits=[
+        (_U, "            if 'state' in task:\n                self.advance(task, rps.CANCELED, publish=True, push=False)\n", "            if 'state' not in task:\n                self.advance(task, rps.CANCELED, publish=True, push=False)\n")]),
+    dict(name='R08.1 is_canceled: hand-on in the else arm of the state test', rules=('R08.1',), edits=[
+        (_U, "            if 'state' in task:\n                self.advance(task, rps.CANCELED, publish=True, push=False)\n", "            stateful = 'state' in task\n            if stateful:\n                pass\n            else:\n                self.advance(task, rps.CANCELED, publish=True, push=False)\n")]),
+    dict(name='R08.1 is_canceled does not hand the task on', rules=('R08.1',), edits=[
+        (_U, "            if 'state' in task:\n                self.advance(task, rps.CANCELED, publish=True, push=False)\n", "")]),
+    dict(name='R08.9 cancel drops the whole priority level (seed C08-g5)', rules=('R08.9',), edits=[
+        (_S, "                                to_cancel.append(task)\n                                del self._waitpool[priority][uid]\n", "                                to_cancel.append(task)\n                                del self._waitpool[priority]\n")]),
+    dict(name='R08.9 cancel pops the whole priority level', rules=('R08.9',), edits=[
+        (_S, "                                to_cancel.append(task)\n                                del self._waitpool[priority][uid]\n", "                                to_cancel.append(task)\n                                self._waitpool.pop(priority)\n")]),
+    dict(name='R08.9 post-insert check clears the priority level', rules=('R08.9',), edits=[
+        (_S, _CHK, "                if self.is_canceled(task) is True:\n                    self._waitpool[priority].clear()\n")]),
+    dict(name='R08.10 exit status tested for truth in cancel_task (seed C08-g6)', rules=('R08.10',), edits=[
+        (_P, "        exit_code = proc.poll()\n        if exit_code is not None:\n", "        exit_code = proc.poll()\n        if exit_code:\n")]),
+    dict(name='R08.10 poll() tested for truth directly', rules=('R08.10',), edits=[
+        (_P, "        exit_code = proc.poll()\n        if exit_code is not None:\n", "        if proc.poll():\n")]),
+    dict(name='R08.10 watcher tests the exit status for truth', rules=('R08.10',), edits=[
+        (_P, "            exit_code = task_proc.poll()\n            if exit_code is not None:\n", "            exit_code = task_proc.poll()\n            if exit_code:\n")]),
+    dict(name='R08.1 raptor backlog overwritten by the complement before the selection', rules=('R08.1',), edits=[
+        (_S, _RAP, "                for queue in self._raptor_tasks:\n                    backlog = self._raptor_tasks[queue]\n                    backlog[:] = [t for t in backlog if t['uid'] not in uids]\n                    to_cancel += [t for t in backlog if t['uid'] in uids]\n")]),
+    dict(name='R08.1 raptor backlog overwritten by the selection', rules=('R08.1',), edits=[
+        (_S, _RAP, "                for queue in self._raptor_tasks:\n                    backlog = self._raptor_tasks[queue]\n                    to_cancel += [t for t in backlog if t['uid'] in uids]\n                    backlog[:] = [t for t in backlog if t['uid'] in uids]\n")]),
 ]
 
 SILENT = [
@@ -830,4 +2034,78 @@ SILENT = [
         (_S, "                                       if t['uid'] in uids]", "                                       if t['uid'] in uidset]")]),
     dict(name='popen keeps the pid in a local', edits=[
         (_P, "        launcher.cancel_task(task, proc.pid)\n", "        pid = proc.pid\n        launcher.cancel_task(task, pid)\n")]),
+    dict(name='post-insert check: hoisted answer, early continue', edits=[
+        (_S, _CHK, "                gone = self.is_canceled(task)\n                if not gone:\n                    continue\n                del self._waitpool[priority][uid]\n")]),
+    dict(name='post-insert check: pool alias, key not bound to a local, pop', edits=[
+        (_S, "                uid = task['uid']\n                self._waitpool[priority][uid] = task\n", "                pool = self._waitpool[priority]\n                pool[task['uid']] = task\n"),
+        (_S, _CHK, "                if self.is_canceled(task):\n                    pool.pop(task['uid'])\n")]),
+    dict(name='post-insert check: skipped while the cancel list is empty', edits=[
+        (_S, _CHK, "                if self._cancel_list and self.is_canceled(task) is True:\n                    del self._waitpool[priority][uid]\n")]),
+    dict(name='post-insert check: answer compared in else form', edits=[
+        (_S, _CHK, "                if self.is_canceled(task) is not True:\n                    pass\n                else:\n                    del self._waitpool[priority][uid]\n")]),
+    dict(name='cancel check dominates the insertion', note='a request that arrives after the check is served by the _CANCEL item of the next call', edits=[
+        (_S, "                uid = task['uid']\n                self._waitpool[priority][uid] = task\n", "                if self.is_canceled(task) is True:\n                    continue\n                uid = task['uid']\n                self._waitpool[priority][uid] = task\n"),
+        (_S, _CHK, "")]),
+    dict(name='post-insert check extracted into a helper', edits=[
+        (_S, "                uid = task['uid']\n                self._waitpool[priority][uid] = task\n", "                self._wait(task, priority)\n"),
+        (_S, _CHK, ""),
+        (_S, "    def _schedule_incoming(self):\n", "    def _wait(self, task, priority):\n        uid = task['uid']\n        self._waitpool[priority][uid] = task\n        if self.is_canceled(task) is True:\n            del self._waitpool[priority][uid]\n\n    def _schedule_incoming(self):\n")]),
+    dict(name='is_canceled with a single exit', edits=[
+        (_U, _ISC, "            tid    = task['uid']\n            listed = tid in self._cancel_list\n\n            if listed:\n\n                if 'state' in task:\n                    self.advance(task, rps.CANCELED, publish=True, push=False)\n\n                self._cancel_list.remove(tid)\n\n            return listed\n")]),
+    dict(name='is_canceled: list alias, answer bound and copied', edits=[
+        (_U, _ISC, "            todo = self._cancel_list\n            tid  = task['uid']\n            miss = tid not in todo\n            skip = miss\n            if skip:\n                return False\n            if 'state' in task:\n                self.advance(task, rps.CANCELED, publish=True, push=False)\n            todo.remove(tid)\n            return True\n")]),
+    dict(name='intake filter extracted into a helper', edits=[
+        (_U, _FLT, "                    things = self._drop_canceled(things)\n"),
+        (_U, "    def work_cb(self):\n", "    def _drop_canceled(self, things):\n        if not self._cancel_list:\n            return things\n        return [thing for thing in things if not self.is_canceled(thing)]\n\n    def work_cb(self):\n")]),
+    dict(name='intake filter helper in loop form', edits=[
+        (_U, _FLT, "                    things = self._drop_canceled(things)\n"),
+        (_U, "    def work_cb(self):\n", "    def _drop_canceled(self, things):\n        if not self._cancel_list:\n            return things\n        kept = list()\n        for thing in things:\n            if self.is_canceled(thing) is True:\n                continue\n            kept.append(thing)\n        return kept\n\n    def work_cb(self):\n")]),
+    dict(name='intake filter bound to a new name which the worker gets', edits=[
+        (_U, _FLT + "\n                  # self._log.debug('== got %d things (%s)', len(things), state)\n                  # for thing in things:\n                  #     self._log.debug('got %s (%s)', thing['uid'], state)\n\n                    self._workers[state](things)\n", "                    todo = things\n                    if len(self._cancel_list) > 0:\n                        todo = [x for x in things\n                                  if self.is_canceled(x) is False]\n                    things = todo\n                    self._workers[state](todo)\n")]),
+    dict(name='executor cancel handler: guards as early continue / return', edits=[
+        (_E, "                task = self.get_task(tid)\n                if task:\n                    self.cancel_task(task)\n", "                task = self.get_task(tid)\n                if not task:\n                    continue\n\n                self.cancel_task(task)\n")]),
+    dict(name='post-insert check on a copy of the name, key respelled', edits=[
+        (_S, _CHK, "                t = task\n                if self.is_canceled(t) is True:\n                    del self._waitpool[priority][t['uid']]\n")]),
+    dict(name='post-insert check conditional on the insertion itself', edits=[
+        (_S, _CHK, "                if uid in self._waitpool[priority] and self.is_canceled(task) is True:\n                    del self._waitpool[priority][uid]\n")]),
+    dict(name='insertion by setdefault', edits=[
+        (_S, "                uid = task['uid']\n                self._waitpool[priority][uid] = task\n", "                uid = task['uid']\n                self._waitpool[priority].setdefault(uid, task)\n")]),
+    dict(name='is_canceled without an explicit return False', edits=[
+        (_U, _ISC, "            tid = task['uid']\n            if tid in self._cancel_list:\n                if 'state' in task:\n                    self.advance(task, rps.CANCELED, publish=True, push=False)\n                self._cancel_list.remove(tid)\n                return True\n")]),
+    dict(name='intake filter in loop form, answer bound to a name', edits=[
+        (_U, _FLT, "                    if self._cancel_list:\n                        kept = []\n                        for x in things:\n                            c = self.is_canceled(x)\n                            if c:\n                                continue\n                            kept.append(x)\n                        things = kept\n")]),
+    dict(name='intake filter compares the answer with False', edits=[
+        (_U, _FLT, "                    if self._cancel_list:\n                        things = [x for x in things\n                                    if self.is_canceled(x) is False]\n")]),
+    dict(name='single uid normalised by ru.as_list', edits=[
+        (_T, _NRM, "            if not isinstance(uids, list):\n                uids = ru.as_list(uids)\n")]),
+    dict(name='single uid: test bound to a name, tuple of types', edits=[
+        (_T, _NRM, "            single = not isinstance(uids, (list,))\n            if single:\n                uids = [uids]\n")]),
+    dict(name='single uid: positive test with an empty arm', edits=[
+        (_U, _NRM, "            if isinstance(uids, list):\n                pass\n            else:\n                uids = [uids, ]\n")]),
+    dict(name='cancel list extended by concatenation', edits=[
+        (_U, "                self._cancel_list += uids\n", "                self._cancel_list = self._cancel_list + uids\n")]),
+    dict(name='is_canceled: state test bound to a name', edits=[
+        (_U, "            if 'state' in task:\n                self.advance(task, rps.CANCELED, publish=True, push=False)\n", "            stateful = 'state' in task\n            if stateful:\n                self.advance(task, rps.CANCELED, publish=True, push=False)\n")]),
+    dict(name='is_canceled: state test inverted with the hand-on in the else arm', edits=[
+        (_U, "            if 'state' in task:\n                self.advance(task, rps.CANCELED, publish=True, push=False)\n", "            if 'state' not in task:\n                pass\n            else:\n                self.advance(task, rps.CANCELED, publish=True, push=False)\n")]),
+    dict(name='is_canceled: hand-on first, list maintenance after', edits=[
+        (_U, "            if 'state' in task:\n                self.advance(task, rps.CANCELED, publish=True, push=False)\n\n            # remove from cancel list\n            self._cancel_list.remove(tid)\n", "            self._cancel_list.remove(tid)\n            if not ('state' in task):\n                return True\n            self.advance(task, rps.CANCELED, publish=True, push=False)\n")],
+         note='order of remove / advance differs only if advance raises'),
+    dict(name='waiting task popped from its level', edits=[
+        (_S, "                                to_cancel.append(task)\n                                del self._waitpool[priority][uid]\n", "                                to_cancel.append(task)\n                                self._waitpool[priority].pop(uid)\n")]),
+    dict(name='waiting task deleted through a pool alias', edits=[
+        (_S, "                            task = self._waitpool[priority].get(uid)\n                            if task:\n                                to_cancel.append(task)\n                                del self._waitpool[priority][uid]\n", "                            pool = self._waitpool[priority]\n                            task = pool.get(uid)\n                            if task:\n                                to_cancel.append(task)\n                                del pool[uid]\n")]),
+    dict(name='exit status: test bound to a name', edits=[
+        (_P, "        exit_code = proc.poll()\n        if exit_code is not None:\n", "        exit_code = proc.poll()\n        done = exit_code is not None\n        if done:\n")]),
+    dict(name='exit status: poll() compared directly', edits=[
+        (_P, "        exit_code = proc.poll()\n        if exit_code is not None:\n", "        if proc.poll() != None:\n")]),
+    dict(name='exit status: zero / non-zero by truth once it is known not to be None', edits=[
+        (_P, "                if exit_code == 0:\n", "                if not exit_code:\n")]),
+    dict(name='exit status: running case first', edits=[
+        (_P, "        exit_code = proc.poll()\n        if exit_code is not None:\n            # task is done, nothing to do\n            self._log.debug('task %s is already done', tid)\n            return\n", "        exit_code = proc.poll()\n        if exit_code is None:\n            pass\n        else:\n            self._log.debug('task %s is already done', tid)\n            return\n")]),
+    dict(name='raptor backlog: selection and complement written back', edits=[
+        (_S, _RAP, "                for queue in self._raptor_tasks:\n                    backlog = self._raptor_tasks[queue]\n                    to_cancel += [t for t in backlog if t['uid'] in uids]\n                    backlog[:] = [t for t in backlog if t['uid'] not in uids]\n")]),
+    dict(name='raptor backlog: complement assigned to the queue entry', edits=[
+        (_S, _RAP, "                for queue in self._raptor_tasks:\n                    to_cancel.extend([t for t in self._raptor_tasks[queue] if t['uid'] in uids])\n                    self._raptor_tasks[queue] = [t for t in self._raptor_tasks[queue] if t['uid'] not in uids]\n")],
+         note='the list object of the entry is replaced; nobody else holds it'),
 ]
